@@ -9,7 +9,10 @@ import (
 	"encoding/hex"
 	"fmt"
 	"math/rand"
+	"os"
+	"path/filepath"
 	"runtime"
+	"strconv"
 	"strings"
 	"time"
 
@@ -91,6 +94,9 @@ func itemsWire(items []item) string {
 				parts = append(parts, "E|~")
 			} else {
 				parts = append(parts, "E|"+etoksWire(it.expr))
+			}
+			if len(it.labels) > 0 {
+				parts = append(parts, "T|"+labelsWire(it.labels)) // always the last entry
 			}
 		case 'A':
 			parts = append(parts, "A|"+etoksWire(it.expr))
@@ -220,13 +226,32 @@ func (r *renderer) items(items []item, lines *[]string) {
 		case 'O':
 			*lines = append(*lines, r.sp(0)+r.cs("org")+r.sp(1)+r.expr(it.expr)+r.trailing())
 		case 'E':
+			pre := r.sp(0)
+			for _, l := range it.labels {
+				pre += l + r.sp(1)
+			}
 			if it.noExpr {
-				*lines = append(*lines, r.sp(0)+r.cs("end")+r.sp(0))
+				*lines = append(*lines, pre+r.cs("end")+r.sp(0))
 			} else {
-				*lines = append(*lines, r.sp(0)+r.cs("end")+r.sp(1)+r.expr(it.expr)+r.trailing())
+				*lines = append(*lines, pre+r.cs("end")+r.sp(1)+r.expr(it.expr)+r.trailing())
+			}
+			if !r.plain && r.rng.Intn(3) == 0 {
+				// whatever follows END is not part of the program: signatures, mail footers,
+				// characters the lexer has no token for
+				trailers := []string{"--------", "submitted by: me (score = 120, R&D hill)", "a | b & c = d", "mov 0, 1", "x equ x",
+					"i for 3", "rof", "100% pure ~ \"quoted\" 'text' !", "end", ";assert 0", "\x01\x02 caf\xc3\xa9 \xff"}
+				for k := 1 + r.rng.Intn(3); k > 0; k-- {
+					*lines = append(*lines, trailers[r.rng.Intn(len(trailers))])
+				}
 			}
 		case 'A':
-			*lines = append(*lines, ";assert "+r.expr(it.expr))
+			sep := " "
+			if !r.plain && len(it.expr) > 0 && (it.expr[0].k == 'L' || (it.expr[0].k == 'o' && (it.expr[0].s == "-" || it.expr[0].s == "+"))) && r.rng.Intn(2) == 0 {
+				sep = "" // ;assert(x) and ;assert-1+1: the keyword needs no blank before '(' or a sign
+			} else if !r.plain && r.rng.Intn(4) == 0 {
+				sep = blanks(r.rng, 1)
+			}
+			*lines = append(*lines, ";assert"+sep+r.expr(it.expr))
 		case 'M':
 			*lines = append(*lines, ";"+it.name+" "+it.text)
 		case 'F':
@@ -359,7 +384,7 @@ type progOpts struct {
 
 func asmConfig(rng *rand.Rand, legacy bool, bigM bool) gmars.SimulatorConfig {
 	var c gmars.SimulatorConfig
-	switch rng.Intn(6) {
+	switch rng.Intn(7) {
 	case 0:
 		c = gmars.ConfigNopNano
 	case 1:
@@ -370,8 +395,29 @@ func asmConfig(rng *rand.Rand, legacy bool, bigM bool) gmars.SimulatorConfig {
 		m := uint64(10 + rng.Intn(200))
 		c = gmars.NewQuickConfig(gmars.ICWS94, gmars.Address(m), gmars.Address(1+rng.Intn(50)), 100, gmars.Address(1+rng.Intn(int(m/3))))
 		c.Distance = gmars.Address(rng.Intn(int(m / 3)))
+	case 4:
+		// tiny cores: Length anywhere in 0..M (also above M/2 and equal to M), Distance anywhere in
+		// 0..M-Length (also 0 and different from Length)
+		m := uint64(3 + rng.Intn(14))
+		l := uint64(rng.Intn(int(m) + 1))
+		if rng.Intn(4) == 0 {
+			l = m
+		}
+		d := uint64(rng.Intn(int(m-l) + 1))
+		c = gmars.SimulatorConfig{Mode: gmars.ICWS94, CoreSize: gmars.Address(m), Processes: gmars.Address(1 + rng.Intn(20)), Cycles: 100,
+			ReadLimit: gmars.Address(m), WriteLimit: gmars.Address(m), Length: gmars.Address(l), Distance: gmars.Address(d)}
 	default:
 		c = gmars.ConfigNOP94
+		if rng.Intn(6) == 0 {
+			// the presets all have Distance == Length; NewQuickConfig(…, 0) has both 0
+			c.Distance = gmars.Address([]uint64{0, 1, 300, 7900, 50}[rng.Intn(5)])
+			if rng.Intn(3) == 0 {
+				c.Length = gmars.Address([]uint64{0, 1, 4000, 4001, 100}[rng.Intn(5)])
+				if uint64(c.Length)+uint64(c.Distance) > uint64(c.CoreSize) {
+					c.Distance = 0
+				}
+			}
+		}
 	}
 	if bigM {
 		c.CoreSize = 1<<33 + 9
@@ -464,6 +510,17 @@ func genProgram(rng *rand.Rand, cfg gmars.SimulatorConfig, o progOpts) []item {
 	if rng.Intn(40) == 0 {
 		n = 0
 	}
+	if (rng.Intn(8) == 0 || (cfg.CoreSize <= 16 && rng.Intn(3) == 0)) && cfg.Length <= 40 {
+		n = int(cfg.Length) // exactly the maximum length (0 included)
+	}
+	// labels on the END line (they denote the address just after the code)
+	var tailLabels []string
+	if rng.Intn(4) == 0 {
+		tailLabels = append(tailLabels, ident(rng, used))
+		if rng.Intn(4) == 0 {
+			tailLabels = append(tailLabels, ident(rng, used))
+		}
+	}
 	// labels
 	labels := make([][]string, n)
 	var allLabels []string
@@ -474,6 +531,7 @@ func genProgram(rng *rand.Rand, cfg gmars.SimulatorConfig, o progOpts) []item {
 			allLabels = append(allLabels, l)
 		}
 	}
+	allLabels = append(allLabels, tailLabels...)
 	// EQUs: each may use labels, constants and earlier EQUs (acyclic)
 	consts := []string{"CORESIZE", "MAXLENGTH", "MAXPROCESSES", "MINDISTANCE"}
 	var equs []item
@@ -523,6 +581,17 @@ func genProgram(rng *rand.Rand, cfg gmars.SimulatorConfig, o progOpts) []item {
 		it.labels = labels[i]
 		instrs = append(instrs, it)
 	}
+	if len(tailLabels) > 0 && n > 0 && rng.Intn(2) == 0 {
+		// the label of the END line as a bare operand: of the first instruction (the farthest
+		// reference a program can make), of the last one, or of any
+		k := []int{0, 0, n - 1, rng.Intn(n)}[rng.Intn(4)]
+		bare := []etok{{'t', tailLabels[rng.Intn(len(tailLabels))]}}
+		if rng.Intn(2) == 0 || instrs[k].b == nil {
+			instrs[k].a.expr = bare
+		} else {
+			instrs[k].b.expr = bare
+		}
+	}
 	// statements in order, EQU lines dropped at random positions
 	var items []item
 	if rng.Intn(3) == 0 {
@@ -558,8 +627,8 @@ func genProgram(rng *rand.Rand, cfg gmars.SimulatorConfig, o progOpts) []item {
 		pos := rng.Intn(len(items) + 1)
 		items = append(items[:pos], append([]item{{kind: 'A', expr: e.expr(1)}}, items[pos:]...)...)
 	}
-	if rng.Intn(2) == 0 {
-		end := item{kind: 'E', noExpr: true}
+	if rng.Intn(2) == 0 || len(tailLabels) > 0 {
+		end := item{kind: 'E', noExpr: true, labels: tailLabels}
 		if rng.Intn(2) == 0 && n > 0 {
 			end.noExpr = false
 			if len(allLabels) > 0 && rng.Intn(2) == 0 {
@@ -617,6 +686,8 @@ func unrollItems(items []item, vals map[string]int) []item {
 			fmt.Sscan(it.expr[0].s, &cnt)
 		} else if len(it.expr) == 1 && it.expr[0].k == 't' {
 			cnt = vals[it.expr[0].s]
+		} else if len(it.expr) == 3 && (it.expr[0].k == 't' && forDefs[it.expr[0].s] != nil || it.expr[2].k == 't' && forDefs[it.expr[2].s] != nil) {
+			cnt = evalText(it.expr) // EQU names: textual substitution
 		} else if len(it.expr) == 3 { // name + number / number + number
 			a, b := 0, 0
 			get := func(t etok) int {
@@ -653,6 +724,50 @@ func unrollItems(items []item, vals map[string]int) []item {
 	return out
 }
 
+// forDefs holds the token lists of the count EQUs of the FOR program being generated: EQU
+// substitution is textual (`r equ w+1`, `r*w` = w+1*w), so counts are computed on the expanded text
+var forDefs = map[string][]etok{}
+
+func expandText(ts []etok, depth int) []etok {
+	var out []etok
+	for _, t := range ts {
+		if d, ok := forDefs[t.s]; ok && t.k == 't' && depth < 40 {
+			out = append(out, expandText(d, depth+1)...)
+		} else {
+			out = append(out, t)
+		}
+	}
+	return out
+}
+
+// evalText evaluates numbers combined with + - * (no parentheses, no unary signs)
+func evalText(ts []etok) int {
+	ts = expandText(ts, 0)
+	sum, sign, prod, have := 0, 1, 1, false
+	for _, t := range ts {
+		switch {
+		case t.k == 'n':
+			v, _ := strconv.Atoi(t.s)
+			prod *= v
+			have = true
+		case t.s == "*":
+		case t.s == "+" || t.s == "-":
+			if have {
+				sum += sign * prod
+			}
+			prod, have = 1, false
+			sign = 1
+			if t.s == "-" {
+				sign = -1
+			}
+		}
+	}
+	if have {
+		sum += sign * prod
+	}
+	return sum
+}
+
 func genForBlock(rng *rand.Rand, used map[string]bool, outer []string, countNames []string, vals map[string]int, depth int, budget *int, legacy bool) item {
 	f := item{kind: 'F', name: ident(rng, used)}
 	// count
@@ -661,6 +776,27 @@ func genForBlock(rng *rand.Rand, used map[string]bool, outer []string, countName
 		c = rng.Intn(2)
 	}
 	switch {
+	case len(countNames) > 0 && rng.Intn(5) == 0:
+		// the same EQU reached twice from one count (n*n, n+n), or two EQUs of which one is
+		// defined through the other (a diamond in the reference graph)
+		n1 := countNames[rng.Intn(len(countNames))]
+		n2 := countNames[rng.Intn(len(countNames))]
+		if rng.Intn(2) == 0 {
+			n2 = n1
+		}
+		op := []string{"*", "+"}[rng.Intn(2)]
+		f.expr = []etok{{'t', n1}, {'o', op}, {'t', n2}}
+		if v := evalText(f.expr); v > 6 || v < 0 {
+			f.expr = []etok{{'t', n1}, {'o', "-"}, {'t', n2}}
+			if evalText(f.expr) < 0 {
+				f.expr = []etok{{'t', n2}, {'o', "-"}, {'t', n1}}
+			}
+		}
+		c = evalText(f.expr)
+		if c < 0 || c > 6 {
+			f.expr = []etok{{'t', n1}}
+			c = vals[n1]
+		}
 	case len(countNames) > 0 && rng.Intn(3) == 0:
 		nm := countNames[rng.Intn(len(countNames))]
 		f.expr = []etok{{'t', nm}}
@@ -714,6 +850,7 @@ func caseTwin(s string) string {
 func genForProgram(rng *rand.Rand, legacy bool) ([]item, []item) {
 	used := map[string]bool{}
 	vals := map[string]int{}
+	forDefs = map[string][]etok{}
 	var items []item
 	twins := rng.Intn(4) == 0
 	if twins {
@@ -725,8 +862,18 @@ func genForProgram(rng *rand.Rand, legacy bool) ([]item, []item) {
 		nm := ident(rng, used)
 		v := rng.Intn(5)
 		vals[nm] = v
+		forDefs[nm] = []etok{{'n', fmt.Sprint(v)}}
 		countNames = append(countNames, nm)
 		items = append(items, item{kind: 'Q', name: nm, expr: []etok{{'n', fmt.Sprint(v)}}})
+	}
+	if len(countNames) > 0 && rng.Intn(3) == 0 {
+		// an EQU defined through another count EQU (with the first one: a diamond when both are used)
+		base := countNames[rng.Intn(len(countNames))]
+		nm := ident(rng, used)
+		vals[nm] = vals[base] + 1
+		forDefs[nm] = []etok{{'t', base}, {'o', "+"}, {'n', "1"}}
+		items = append(items, item{kind: 'Q', name: nm, expr: []etok{{'t', base}, {'o', "+"}, {'n', "1"}}})
+		countNames = append(countNames, nm)
 	}
 	if rng.Intn(5) == 0 {
 		// a count reached through a chain of EQUs
@@ -742,6 +889,7 @@ func genForProgram(rng *rand.Rand, legacy bool) ([]item, []item) {
 			prev = nm
 		}
 		vals[prev] = v
+		forDefs[prev] = []etok{{'n', fmt.Sprint(v)}}
 		countNames = append(countNames, prev)
 	}
 	budget := 12
@@ -763,6 +911,7 @@ func genForProgram(rng *rand.Rand, legacy bool) ([]item, []item) {
 			nm := ident(rng, used)
 			v := rng.Intn(4)
 			vals[nm] = v
+			forDefs[nm] = []etok{{'n', fmt.Sprint(v)}}
 			countNames = append([]string{nm}, countNames...)
 			items = append(items, item{kind: 'Q', name: nm, expr: []etok{{'n', fmt.Sprint(v)}}})
 		}
@@ -795,6 +944,16 @@ var asmLeaks int
 
 const asmDeadline = 3 * time.Second
 
+// noteCurrent records the input about to be assembled: a fatal runtime error (stack overflow,
+// out of memory) kills the process without unwinding, and the check then reports this input
+func noteCurrent(cfg gmars.SimulatorConfig, text []byte) {
+	dir := os.Getenv("VERIF_TMP")
+	if dir == "" {
+		return
+	}
+	os.WriteFile(filepath.Join(dir, "current.case"), []byte(cfgFields(cfg)+" "+hexd(text)+"\n"), 0o644)
+}
+
 func runAsmFull(cfg gmars.SimulatorConfig, text []byte) asmOutcome {
 	if asmTimeouts >= 3 {
 		return asmOutcome{"skipped", 0}
@@ -802,6 +961,7 @@ func runAsmFull(cfg gmars.SimulatorConfig, text []byte) asmOutcome {
 	before := runtime.NumGoroutine()
 	var w gmars.WarriorData
 	var err error
+	noteCurrent(cfg, text)
 	f := guarded(asmDeadline, func() { w, err = gmars.CompileWarrior(bytes.NewReader(text), cfg) })
 	res := wresult(w, err, f)
 	if f == "timeout" {
@@ -843,6 +1003,14 @@ func runAsmFull(cfg gmars.SimulatorConfig, text []byte) asmOutcome {
 }
 
 func emitAsm(out *bufio.Writer, id, tag string, cfg gmars.SimulatorConfig, text []byte, prog string, second []byte) {
+	// the properties quantify over valid configurations: a generator that overrides Length or
+	// CoreSize afterwards may have left Length+Distance above the core size
+	if cfg.Validate() != nil {
+		if cfg.Length > cfg.CoreSize {
+			cfg.Length = cfg.CoreSize
+		}
+		cfg.Distance = 0
+	}
 	o := runAsmFull(cfg, text)
 	if o.res == "skipped" {
 		return
